@@ -12,6 +12,12 @@ PROPS = {
         "level_note": _COMMON_NOTE + "u64 version overflow is out of scope (unbounded Nat). The system-level statement (any delivery order) follows because every delivered node delta satisfies KvsLeMax (C09_decoded_delta_wf) and apply only touches the addressed copy.",
         "assumptions": ["u64 version overflow (2^64 writes) is out of scope: versions are unbounded naturals in the model"],
     },
+    "C06": {
+        "suites": ["node"],
+        "level_text": "Refinement theorem C06_refines (every operation sequence from the empty state: implementation map = reference map, invariant kept) via C06_step_refines; reads determined by the abstraction (C06_get, C06_contains, C06_keyValues_exact/_sorted, C06_iterPrefix_exact/_sorted incl. the prefix-contiguity lemma); C06_delete_invisible, C06_delete_absent_noop, C06_ttl_visible, C06_gc_exact, C06_gc_watermark. Tied to state.rs by exhaustive short and random long op sequences with all reads compared after every op.",
+        "level_note": _COMMON_NOTE + "Time is the paused tokio clock in ticks of 2^-9 s; `Instant` arithmetic overflow is out of scope.",
+        "assumptions": ["time is the paused tokio clock, in ticks of 2^-9 s"],
+    },
     "C14": {
         "suites": ["pair"],
         "level_text": "Theorems for all sender copies, receiver copies and truncation points with no invariant assumed (C14_offer_iff, C14_reset_iff, C14_never_refused, C14_strict_progress, C14_nonempty_progress); model tied to compute_partial_delta_respecting_mtu / apply_delta by the exhaustive frontier sweep with exact-fit budgets at every truncation point.",
